@@ -117,16 +117,31 @@ inductive Built
   | ok (periods : List OutPeriod)
   /-- `ZeroDivisionError` from `firstAvailableTime.total_seconds() // 0.0` escapes -/
   | zeroDivision
+  /-- `ManifestNotAvailable` (→ 404): more than `MAX_LIVE_PERIODS` Period elements would be
+  needed (fix e70c912) -/
+  | tooMany
   /-- the loop does not terminate -/
   | diverges
   deriving Repr, DecidableEq
 
-/-- `create_all_live_periods` with the exact loop count `⌊F / D⌋` -/
-def livePeriods (ps : List PeriodDef) (E F : Nat) : Built :=
+/-- `ManifestContext.MAX_LIVE_PERIODS` -/
+def maxLivePeriods : Nat := 2000
+
+/-- `create_all_live_periods` (manifest_context.py:207-262) for a given loop count `nl` and a
+given value `cnt` of the second float floor-division
+`int((elapsedTime − start).total_seconds() // duration.total_seconds())` (`start = D · nl`),
+which bounds the number of Period elements before the loop is entered (fix e70c912) -/
+def livePeriodsGuarded (ps : List PeriodDef) (E F nl cnt : Nat) : Built :=
   if totalDuration ps = 0 then .zeroDivision
-  else match livePeriodsFrom ps E F (F / totalDuration ps) with
+  else if ps.length * (1 + cnt) > maxLivePeriods then .tooMany
+  else match livePeriodsFrom ps E F nl with
     | some l => .ok l
     | none => .diverges
+
+/-- `create_all_live_periods` with the exact floors `⌊F / D⌋` and `⌊(E − D·⌊F/D⌋) / D⌋` -/
+def livePeriods (ps : List PeriodDef) (E F : Nat) : Built :=
+  livePeriodsGuarded ps E F (F / totalDuration ps)
+    ((E - totalDuration ps * (F / totalDuration ps)) / totalDuration ps)
 
 /-! ### `ServeMpsMedia.calculate_media_segment_index` -/
 
